@@ -80,6 +80,12 @@ Fixpoint spec_node (fuel : nat) (ch : chain) : option (name * chain) -> node -> 
   match fuel with
   | 0 => fun _ _ => Err EOutOfFuel
   | S f =>
+      (* a definition's body expanded one level deeper *)
+      let sub := fun (cur' : option (name * chain)) (body : list node) =>
+        match f with
+        | 0 => Err EOutOfFuel
+        | S _ => list_bind (spec_node f ch cur') body
+        end in
       fix sn (cur : option (name * chain)) (n : node) {struct n} : rres (list otree) :=
         match n with
         | Text i => Ok [TText i]
@@ -88,7 +94,7 @@ Fixpoint spec_node (fuel : nat) (ch : chain) : option (name * chain) -> node -> 
             match resolve ch b with
             | None => Err ENoLineage          (* cannot happen: b is defined where it stands *)
             | Some (body, anc) =>
-                r <- list_bind (spec_node f ch (Some (b, anc))) body ;; Ok [TBlock b r]
+                r <- sub (Some (b, anc)) body ;; Ok [TBlock b r]
             end
         | Super =>
             match cur with
@@ -96,7 +102,7 @@ Fixpoint spec_node (fuel : nat) (ch : chain) : option (name * chain) -> node -> 
             | Some (b, anc) =>
                 match resolve anc b with
                 | None => Err ESuperTop       (* no ancestor defines the block *)
-                | Some (body, anc') => list_bind (spec_node f ch (Some (b, anc'))) body
+                | Some (body, anc') => sub (Some (b, anc')) body
                 end
             end
         end
